@@ -4,7 +4,7 @@
 (*                                                                          *)
 (* A document is a function from a fixed set of leaf paths to raw scalar    *)
 (* tokens (JSON spelling) or Absent; the shape is                           *)
-(*    { "a": _, "b": _, "n": { "x": _, "y": _ }, "l": [ _, _ ] }            *)
+(*    { "a": _, "b": _, "n": { "x": _, "xy": _ }, "l": [ _, _ ] }            *)
 (* A matcher is [m, p, ph, eomp, t, err]:                                   *)
 (*    m    "any" | "type" | "custom"                                        *)
 (*    p    the path it targets (possibly one no document has)               *)
@@ -18,7 +18,7 @@
 (***************************************************************************)
 EXTENDS Naturals, Sequences, FiniteSets, TLC
 
-Paths  == {"a", "b", "n.x", "n.y", "l.0", "l.1"}
+Paths  == {"a", "b", "n.x", "n.xy", "l.0", "l.1"}
 Absent == "absent"
 
 TypeOf(v) ==
